@@ -207,6 +207,27 @@ def _replay_divide(rec, unit, result, fresh, tu, wd, cx):
     return False
 
 
+def bv_divide_w32_unit():
+    """portable configuration without unsigned __int128: divide_std_dword takes its bit-serial branch (64 shift / compare / subtract steps per digit).
+    Per-digit step relation asserted at the end of the digit loop; the digits are chained by the ensures clauses as in the word-level unit."""
+    import bvspec as S
+    from units import BVUnit
+    q = "BigInt<256>::divide_std_dword<-3314367850767908864>"
+    D = "((uv128)%dULL)" % X_ABS
+    prelude = "uint64_t jpv_up[4], jpv_lo[4], jpv_q[4], jpv_rm[4];\n"
+    end = "\n".join([
+        "jpv_up[i] = dividend_upper; jpv_lo[i] = dividend_lower; jpv_q[i] = quotient; jpv_rm[i] = rem;",
+        "__CPROVER_assert((uv128)quotient * %s + (uv128)rem == (((uv128)dividend_upper << 64) | (uv128)dividend_lower), \"division step: upper * 2^64 + lower == quotient * d + rem\");" % D,
+        "__CPROVER_assert((uv128)rem < %s, \"division step: rem < d\");" % D])
+    c = (S.alias_out_a() + S.assigns("__CPROVER_object_whole(self)", "__CPROVER_object_whole(jpv_up)", "__CPROVER_object_whole(jpv_lo)", "__CPROVER_object_whole(jpv_q)", "__CPROVER_object_whole(jpv_rm)")
+         + S.ens("__CPROVER_return_value == jpv_rm[0]", "jpv_up[3] == 0", "jpv_up[2] == jpv_rm[3] && jpv_up[1] == jpv_rm[2] && jpv_up[0] == jpv_rm[1]"))
+    u = BVUnit(q, {q: c}, ["C03", "C06"], unwind=66, timeout=1500, spec_prelude=prelude, loop_contracts={q: {("end", 1): end}}, canary=None, tier="thorough",
+               label="BigInt<256>::divide_std_dword<|x|> [portable C++, 32-bit words: bit-serial branch]: per-digit division steps exact, remainders chained",
+               note="64 restoring-division steps per digit unwound completely")
+    u.tu_variant = "w32"
+    return u
+
+
 def word_unit(u):
     u.back_end = "WORD"
     u.replay_hook = _replay_divide
